@@ -2,6 +2,7 @@ package harness
 
 import (
 	"encoding/binary"
+	"encoding/json"
 	"fmt"
 	"math/rand"
 	"os"
@@ -49,6 +50,7 @@ type svScn struct {
 	ids   *hx.IDMap
 	npipe int
 	base  uint32
+	el    time.Duration // virtual time elapsed (absolute "advto" steps of TLC-generated scenarios)
 	hist  [][]uint32
 	nsv   int
 	nrsp  int
@@ -214,8 +216,37 @@ func (c *svScn) step(st string) {
 	case "adv":
 		d, _ := time.ParseDuration(arg(1))
 		s.Adv(d)
+		c.el += d
 		c.snap()
 		return
+	case "advto":
+		// advto <seconds>: absolute virtual time (TLC-generated scenarios name the expiry / deadline they run into)
+		var sec int
+		fmt.Sscanf(arg(1), "%d", &sec)
+		if d := time.Duration(sec)*time.Second - c.el; d > 0 {
+			s.Adv(d)
+			c.el += d
+			c.snap()
+			return
+		}
+	case "respid":
+		// respid <pipe> <n> hi|lo: a response carrying the n-th survey id this socket issues, with or without the
+		// request bit (TLC-generated scenarios)
+		p := c.pipes[arg(1)]
+		if p == nil || p.IsClosed() {
+			break
+		}
+		var n uint32
+		fmt.Sscanf(arg(2), "%d", &n)
+		id := (c.base&0x7fffffff + n) & 0x7fffffff
+		if arg(3) == "hi" {
+			id |= 0x80000000
+		}
+		c.nrsp++
+		b := binary.BigEndian.AppendUint32(nil, id)
+		b = append(b, []byte(fmt.Sprintf("r%d", c.nrsp))...)
+		c.last = b
+		p.Inject(b)
 	case "cclose":
 		i := ci(arg(1))
 		if i > 0 {
@@ -378,10 +409,56 @@ func svDeadline() []svCfg {
 	return out
 }
 
+// svFromTLC loads the scenarios TLC generated from spec/mc/MC_SurvScn.tla and picks a seeded sample.
+func svFromTLC(path string, rng *rand.Rand, n int) []svCfg {
+	sec := time.Second
+	a := svCfg{Opts: []svCtxOpt{{SurvExp: 3 * sec, QLen: 1}, {SurvExp: 3 * sec, RecvExp: 2 * sec, QLen: 2}}, SQ: 1}
+	mixes := map[string]svCfg{"a": a, "a5": a,
+		"b": {Opts: []svCtxOpt{{SurvExp: 0, QLen: 2}, {SurvExp: 4 * sec, QLen: 0}}, SQ: 0}}
+	data, err := os.ReadFile(path)
+	if err != nil {
+		panic(err)
+	}
+	var all []svCfg
+	for _, ln := range strings.Split(string(data), "\n") {
+		if strings.TrimSpace(ln) == "" {
+			continue
+		}
+		var x struct {
+			Opt   string   `json:"opt"`
+			Steps []string `json:"steps"`
+		}
+		if err := json.Unmarshal([]byte(ln), &x); err != nil {
+			panic(err)
+		}
+		c, ok := mixes[x.Opt]
+		if !ok {
+			panic("unknown option mix " + x.Opt)
+		}
+		c.Steps = x.Steps
+		all = append(all, c)
+	}
+	rng.Shuffle(len(all), func(i, j int) { all[i], all[j] = all[j], all[i] })
+	if n < len(all) {
+		all = all[:n]
+	}
+	return all
+}
+
 func TestSurveyor(t *testing.T) {
 	out := newOut(t, "surveyor")
 	defer out.Close()
 	rng := rand.New(rand.NewSource(seed()))
+	if f := os.Getenv("VERIF_SCN_FILE"); f != "" {
+		for i, cfg := range svFromTLC(f, rng, count(400, 1000000)) {
+			if out.Stop() {
+				break
+			}
+			res := runSurveyor(t, cfg)
+			out.Add(fmt.Sprintf("surveyorscn-%d", i), svCfgEv(cfg), fmt.Sprint(cfg), res)
+		}
+		return
+	}
 	cfgs := svScripted()
 	if os.Getenv("VERIF_MIX") == "deadline" {
 		cfgs = svDeadline()
